@@ -320,13 +320,15 @@ func (g *gctx) portionSet(k int) []Portion {
 	switch style {
 	case "percent":
 		// percentages that add up to exactly 100
-		pcts := []string{"12.5%", "37.5%", "50%"}
-		if k == 2 {
-			pcts = []string{"99.99%", "0.01%"}
-		} else if k == 4 {
-			pcts = []string{"10%", "20%", "30%", "40%"}
-		} else if k != 3 {
-			pcts = nil
+		// (decimals that begin with a zero, trailing zeros, many digits: the text is a decimal fraction of 100)
+		sets := map[int][][]string{
+			2: {{"99.99%", "0.01%"}, {"97.95%", "2.05%"}, {"89.95%", "10.05%"}, {"99.995%", "0.005%"}, {"50.0%", "50.00%"}, {"0.05%", "99.95%"}},
+			3: {{"12.5%", "37.5%", "50%"}, {"2.05%", "7.95%", "90%"}, {"1.005%", "0.995%", "98%"}, {"33.3%", "33.3%", "33.4%"}, {"0.0625%", "49.9375%", "50%"}},
+			4: {{"10%", "20%", "30%", "40%"}, {"0.05%", "0.95%", "9%", "90%"}, {"25.0%", "25.00%", "24.05%", "25.95%"}},
+		}
+		var pcts []string
+		if alts := sets[k]; alts != nil {
+			pcts = alts[rapid.IntRange(0, len(alts)-1).Draw(g.t, "pctSet")]
 		}
 		if pcts != nil {
 			for i := range out {
@@ -350,6 +352,13 @@ func (g *gctx) portionSet(k int) []Portion {
 		}
 		for i := range out {
 			out[i] = Portion{Kind: PConst, Text: frac(weights[i])}
+		}
+		if rapid.IntRange(0, 2).Draw(g.t, "pctWithRemaining") == 0 {
+			// small percentages, some with decimals that begin with a zero; what is left goes to `remaining`
+			for i := range out {
+				out[i] = Portion{Kind: PConst, Text: rapid.SampledFrom([]string{"2.05%", "0.05%", "10.05%", "1.005%", "12.50%", "0.5%", "7%", "0.001%"}).Draw(g.t, "smallPct")}
+			}
+			g.label("portions:percent")
 		}
 		out[ri] = Portion{Kind: PRemaining}
 		g.label("portions:remaining")
